@@ -37,21 +37,52 @@ pub struct Recorder {
     calls: usize,
     fail_at: Option<usize>,
     mid: bool,
+    /// remote control for a recorder that sits inside a runner which is used for several walks: a pending order
+    /// "forget everything, fail at this callback from now on", and a copy of the log for the outside to read
+    ctl: Option<std::rc::Rc<std::cell::RefCell<Ctl>>>,
+}
+
+#[derive(Default)]
+pub struct Ctl {
+    reset_to: Option<Option<usize>>,
+    log: Vec<Ev>,
+    calls: usize,
 }
 
 impl Recorder {
     fn new(fail_at: Option<usize>, mid: bool) -> Self {
-        Recorder { log: vec![], calls: 0, fail_at, mid }
+        Recorder { log: vec![], calls: 0, fail_at, mid, ctl: None }
+    }
+    fn remote(mid: bool) -> (Self, std::rc::Rc<std::cell::RefCell<Ctl>>) {
+        let ctl = std::rc::Rc::new(std::cell::RefCell::new(Ctl::default()));
+        (Recorder { log: vec![], calls: 0, fail_at: None, mid, ctl: Some(ctl.clone()) }, ctl)
     }
     fn leaf(&mut self, e: Ev) -> Result<Log, usize> {
-        if self.fail_at == Some(self.calls) {
+        if let Some(ctl) = &self.ctl {
+            if let Some(f) = ctl.borrow_mut().reset_to.take() {
+                self.log.clear();
+                self.calls = 0;
+                self.fail_at = f;
+            }
+        }
+        let r = if self.fail_at == Some(self.calls) {
             let k = self.calls;
             self.calls += 1;
-            return Err(k);
+            Err(k)
+        } else {
+            self.calls += 1;
+            self.log.push(e.clone());
+            Ok(Log(vec![e]))
+        };
+        if let Some(ctl) = &self.ctl {
+            let mut c = ctl.borrow_mut();
+            match &r {
+                Ok(l) => c.log.push(l.0[0].clone()),
+                Err(_) => {}
+            }
+            c.calls = self.calls;
         }
-        self.calls += 1;
-        self.log.push(e.clone());
-        Ok(Log(vec![e]))
+        r
     }
     /// mid-level callbacks log "presented" and contribute it to the fold as well
     fn enter(&mut self, what: &'static str) -> Result<Log, usize> {
@@ -235,6 +266,64 @@ fn check_tree(tree: &r::Program, mid: bool, all_k: bool) -> Result<(usize, u32),
             return Err(format!("callback #{} failed: the callbacks before it are not the first {} of the full sequence", k, k));
         }
     }
+    // ---- one runner used for walk after walk: a failed walk, then a complete one, again and again; every walk must be
+    // what it would be with a fresh runner (nothing about an earlier walk, finished or not, may linger in the runner)
+    {
+        let (rec, ctl) = Recorder::remote(mid);
+        let mut runner = ExprVisitorRunner::with_inner(rec);
+        let ks: Vec<usize> = if n <= 12 { (0..n).collect() } else { (0..12).map(|i| i * (n - 1) / 11).collect() };
+        for k in ks {
+            {
+                let mut c = ctl.borrow_mut();
+                c.reset_to = Some(Some(k));
+                c.log.clear();
+                c.calls = 0;
+            }
+            let res = runner.visit_program(tree);
+            runs += 1;
+            {
+                let c = ctl.borrow();
+                if res != Err(k) || c.log[..] != expected[..k] || c.calls != k + 1 {
+                    return Err(format!(
+                        "a runner that has walked before: callback #{} failed, the walk returned {:?} after {} logged callbacks and {} calls (expected Err({}), {} and {})",
+                        k,
+                        res.map(|l| l.0.len()),
+                        c.log.len(),
+                        c.calls,
+                        k,
+                        k,
+                        k + 1
+                    ));
+                }
+            }
+            {
+                let mut c = ctl.borrow_mut();
+                c.reset_to = Some(None);
+                c.log.clear();
+                c.calls = 0;
+            }
+            let res = runner.visit_program(tree);
+            runs += 1;
+            let c = ctl.borrow();
+            if c.log != expected {
+                let i = c.log.iter().zip(expected.iter()).position(|(a, b)| a != b).unwrap_or(c.log.len().min(expected.len()));
+                return Err(format!(
+                    "a runner whose previous walk stopped at callback #{} does not present the whole tree on its next walk: event #{} is {:?}, the tree has {:?} (visitor {} events, tree {})",
+                    k,
+                    i,
+                    c.log.get(i),
+                    expected.get(i),
+                    c.log.len(),
+                    expected.len()
+                ));
+            }
+            match res {
+                Ok(folded) if folded.0 == c.log => {}
+                Ok(folded) => return Err(format!("reused runner: the folded result is not the combination of the callback results ({} vs {} entries)", folded.0.len(), c.log.len())),
+                Err(e) => return Err(format!("reused runner: walk failed with {} although no callback failed", e)),
+            }
+        }
+    }
     Ok((n, runs))
 }
 
@@ -254,6 +343,7 @@ impl Prop for C16 {
         vec![
             "expected order = reading order from an independent walk over the public tree fields (walk.rs): field order except BinaryExpression (lhs, operator, rhs) and Assignment (dest, operator, value)".into(),
             "statement-level leaves of the runner (mutation operator, rounding direction, break, continue) are not delegated to the inner visitor and cannot be observed".into(),
+            "one runner object is also used for up to 24 walks in a row (failing at 12 spread callbacks, each followed by a complete walk): every walk must equal the walk of a fresh runner".into(),
         ]
     }
     fn tape_len(&self, _t: Tier) -> usize {
